@@ -55,10 +55,12 @@ def main():
             "name": "vp",
             "path": "vp/",
             "serves_properties": [c["property_id"] for c in checks],
-            "kind_free_text": "property-based testing: Hypothesis strategies / rule-based state machines over "
-                              "JSON recipes, exhaustive enumeration of finite domains, bounded BFS over operation "
-                              "histories; oracles = geometric symmetry groups, pure-Python reference model, "
-                              "brute-force isomorphism, round trips, metamorphic relations",
+            "kind_free_text": "property-based testing: Hypothesis-drawn byte tapes turned into JSON recipes / "
+                              "operation histories by plain generator functions, exhaustive enumeration of finite "
+                              "domains, bounded BFS over operation histories, recipe-level delta debugging; thorough "
+                              "tier adds coverage-guided atheris / libFuzzer campaigns over the same generators and "
+                              "checks (vp/fuzzchild.py); oracles = geometric symmetry groups, pure-Python reference "
+                              "model, brute-force isomorphism, round trips, metamorphic relations",
         }],
         "checks": checks,
         "not_applicable": na,
